@@ -69,6 +69,9 @@ const (
 // Dir is one direction of a connection: a byte queue plus fault state.
 type Dir struct {
 	Name string
+	// ErrWithData: the Read that delivers the last bytes before the end of the
+	// stream (EOF, or the error of a cut) returns that error in the same call
+	ErrWithData bool
 	buf  []byte
 	Cap  int // capacity; writer blocks while len(buf) >= Cap
 	// HardCap keeps the capacity in force after the op budget is used up
@@ -339,6 +342,26 @@ func (e *End) takeLocked(p []byte, all bool) (int, error) {
 	d.Delivered += int64(k)
 	if len(d.buf) == 0 {
 		d.buf = nil
+	}
+	if d.ErrWithData {
+		// the io.Reader contract allows the last bytes and the end of the stream (or
+		// the error that ends it) to come back from one and the same call
+		if d.CutAt >= 0 && d.Delivered >= d.CutAt {
+			if !d.fired["cut"] {
+				d.fired["cut"] = true
+				if d.CutErr == io.EOF {
+					e.S.Stats["fault.cut-eof"]++
+				} else {
+					e.S.Stats["fault.cut-err"]++
+				}
+			}
+			e.S.Stats["fault.error-with-last-bytes"]++
+			return k, d.CutErr
+		}
+		if d.wclosed && len(d.buf) == 0 && d.CutAt < 0 {
+			e.S.Stats["fault.error-with-last-bytes"]++
+			return k, io.EOF
+		}
 	}
 	return k, nil
 }
